@@ -522,3 +522,43 @@ package h2
 //@   requires f != nil && dest != nil
 //@   modifies wrN, wrKindAt, wrStreamAt, wrAuxAt
 //@   ensures[rst-as-queued] wrN == old(wrN) + 1 && wrKindAt[old(wrN)] == 3 && wrStreamAt[old(wrN)] == f.streamID && wrAuxAt[old(wrN)] == f.errCode
+
+// ---------------------------------------------------------------------------------------------
+// C08: connection preface. The client is a byte stream (ghost: rdStream(i) is its i-th byte, rdPos the read position);
+// Read may return any positive number of the next bytes. A client that sends the preface must not be rejected, however
+// the transport segments it, and exactly the 24 preface bytes are consumed and written.
+
+//@ ghost var rdPos int
+//@ ghost var rdFails bool
+//@ ghost var wrPos int
+//@ ghost var wrFails bool
+//@ specfunc rdStream(i int) int
+
+// Facts about the constant http2.ClientPreface = "PRI * HTTP/2.0\r\n\r\nSM\r\n\r\n": 24 bytes, none of them zero.
+//@ axiom preface-constant: len(connectionPreface) == 24 && forall i int :: 0 <= i && i < 24 ==> connectionPreface[i] != 0
+
+//@ extern iface io.Reader.Read
+//@   modifies p[*], rdPos
+//@   ensures 0 <= n && n <= len(p) && rdPos == old(rdPos) + n
+//@   ensures forall j int :: 0 <= j && j < n ==> p[j] == rdStream(old(rdPos) + j)
+//@   ensures forall j int :: n <= j && j < len(p) ==> p[j] == old(p[j])
+//@   ensures !rdFails ==> err == nil && (len(p) > 0 ==> n >= 1)
+//@ extern func io.ReadFull
+//@   modifies buf[*], rdPos
+//@   ensures 0 <= n && n <= len(buf) && rdPos == old(rdPos) + n
+//@   ensures forall j int :: 0 <= j && j < n ==> buf[j] == rdStream(old(rdPos) + j)
+//@   ensures err == nil ==> n == len(buf)
+//@   ensures !rdFails ==> err == nil
+//@ extern iface io.Writer.Write
+//@   modifies wrPos
+//@   ensures 0 <= n && n <= len(p) && wrPos == old(wrPos) + n
+//@   ensures !wrFails ==> err == nil && (len(p) > 0 ==> n >= 1)
+//@   ensures err == nil ==> n == len(p)
+
+//@ func forwardPreface
+//@   serves C08
+//@   safe slice index make
+//@   requires forall i int :: 0 <= i && i < 24 ==> rdStream(rdPos + i) == connectionPreface[i]
+//@   ensures[valid-client-accepted-for-any-segmentation] !rdFails && !wrFails ==> result == nil
+//@   ensures[exactly-the-preface-consumed-and-written] result == nil ==> rdPos == old(rdPos) + 24 && wrPos == old(wrPos) + 24
+//@   loop 0 invariant m >= 0 && len(preface) == m && wrPos + m == old(wrPos) + 24 && rdPos == old(rdPos) + 24
